@@ -11,6 +11,11 @@ CHECKS = {
    "DESIGN.md 6 C15",
    "Trusted: the VC generator, go/types, the solvers; fmt.Sprintf pure and non-empty for %d formats; TypesPackage implementations pure; termination of the suffix searches argued, not proved.",
    "contract-based deductive verification: weakest-precondition style VC generation over go/ast+go/types of the real functions against //@ contracts, discharged by z3/cvc5"),
+ "C16": ("proof",
+   "Every entry of template_funcs.FuncMap is decided: lambdas are proved equal to the documented standard-library namesake with the subject string last (stdlib uninterpreted, so the obligation is exactly 'right function, right argument order'); direct bindings are proved to be the documented object by go/types identity; Exported, FirstIsLower, ReadFile and the arithmetic functions at int are proved against functional specifications (first rune, initialism search with a loop invariant, left fold of the 64-bit wrapped operator) for all inputs. Index and slice-bounds safety obligations give totality.",
+   "DESIGN.md 6 C16",
+   "Trusted: VC generator, go/types, solvers; stdlib/xstrings functions uninterpreted; two Unicode/UTF-8 axioms listed in the contract file; panics from division by zero and Min of nothing are template errors by text/template's recovery.",
+   "contract-based deductive verification: VC generation over the real function bodies and FuncMap literals against //@ contracts, discharged by z3/cvc5; object identity of direct bindings by go/types"),
 }
 
 NOT_APPLICABLE = {
